@@ -78,8 +78,14 @@ def listChildrenOK (k : Kind) (cs : List ANode) : Bool :=
       cs.all fun x => x.kind == .spread || isExpr x || isPassable x
   | .dict => cs.all fun x => x.kind == .named || x.kind == .keyed || x.kind == .spread || isPassable x
   | .parenthesized =>
-      -- directly nested parentheses `((x))` merge into one layer: not covered
-      (cs.all fun x => (isPattern x && !(x.kind == .parenthesized)) || isPassable x)
+      (cs.all fun x => isPattern x || isPassable x) &&
+      -- directly nested parentheses `((x))` merge into one layer: the inner layer is printed alone
+      (match cs.find? isPattern with
+        | some p =>
+          if p.kind == .parenthesized && !(cs.any fun c => isCommentKind c.kind) then
+            !p.attrs.disabled && (cs.filter fun x => !isIgnorable x).length == 1
+          else true
+        | none => true)
   | .codeBlock => cs.all fun c =>
       if c.kind == .code then
         (match c with
@@ -1308,6 +1314,50 @@ theorem convExpr_frag (e : Env) (r : Rec) (hr : RecOK r Q) (hrM : RecOKM r QM) (
             (fun x hx => no_hash_of (fun x => x.kind == .named || x.kind == .keyed || x.kind == .spread) (fun y hy hk => by rw [hk] at hy; simp at hy) x (hall x hx).2)
 
 /-- One level of the knot: `convert_parenthesized`. -/
+theorem specAllL_unique (cs : List ANode) (hlex : ANode.tokensAreLeavesL cs = true) (p : ANode) (hp : p ∈ cs)
+    (hni : isIgnorable p = false) (hcount : (cs.filter fun x => !isIgnorable x).length = 1) :
+    specAllL cs = specAll p := by
+  induction cs with
+  | nil => cases hp
+  | cons c rest ih =>
+    simp only [ANode.tokensAreLeavesL, Bool.and_eq_true] at hlex
+    rw [specAllL_cons]
+    by_cases hc : isIgnorable c = true
+    · have hpr : p ∈ rest := by
+        rcases List.mem_cons.mp hp with rfl | h
+        · rw [hc] at hni; cases hni
+        · exact h
+      have hcount' : (rest.filter fun x => !isIgnorable x).length = 1 := by
+        rw [List.filter_cons] at hcount
+        simpa [hc] using hcount
+      rw [specAll_ignorable c hlex.1 hc, ih hlex.2 hpr hcount', Streams.empty_app]
+    · have hc' : isIgnorable c = false := by simpa using hc
+      rw [List.filter_cons] at hcount
+      simp only [hc', Bool.not_false, ↓reduceIte, List.length_cons, Nat.add_eq_right, List.length_eq_zero_iff] at hcount
+      have hall : ∀ x ∈ rest, isIgnorable x = true := by
+        intro x hx
+        cases hix : isIgnorable x with
+        | true => rfl
+        | false =>
+          exfalso
+          have : x ∈ rest.filter fun x => !isIgnorable x := by
+            rw [List.mem_filter]; exact ⟨hx, by simp [hix]⟩
+          rw [hcount] at this; cases this
+      have hrest : specAllL rest = {} := by
+        clear ih hp hcount
+        induction rest with
+        | nil => rfl
+        | cons y ys ihy =>
+          simp only [ANode.tokensAreLeavesL, Bool.and_eq_true] at hlex
+          rw [specAllL_cons, specAll_ignorable y hlex.2.1 (hall y List.mem_cons_self),
+            ihy ⟨hlex.1, hlex.2.2⟩ (fun x hx => hall x (List.mem_cons_of_mem _ hx))]
+          rfl
+      have hpc : p = c := by
+        rcases List.mem_cons.mp hp with h | h
+        · exact h
+        · rw [hall p h] at hni; cases hni
+      rw [hrest, hpc, Streams.app_empty]
+
 theorem convParenthesized_frag (e : Env) (r : Rec) (hr : RecOK r Q) (ctx : Ctx) (hctx : NM ctx) (n : ANode) (hk : n.kind = .parenthesized)
     (hdis : n.attrs.disabled = false) (hq : inFrag n = true) : Post (convParenthesized e r ctx n) (fun d => Carries d (specAll n)) := by
   cases n with
@@ -1323,47 +1373,46 @@ theorem convParenthesized_frag (e : Env) (r : Rec) (hr : RecOK r Q) (ctx : Ctx) 
       have h1 := hq.1
       simp [Kind.isFragFlow, Kind.isFragElem, Kind.isFragList, Kind.isFragWrap, Kind.isFragItem] at h1
       exact h1
+    simp only [listChildrenOK, Bool.and_eq_true] at hch
     have hall : ∀ x ∈ cs, inFrag x = true ∧ (isPattern x = true ∨ isPassable x = true) := by
       intro x hx
-      simp only [listChildrenOK, List.all_eq_true] at hch
-      have := hch x hx
-      simp only [Bool.or_eq_true, Bool.and_eq_true] at this
-      refine ⟨inFragL_mem hq.2 hx, ?_⟩
-      rcases this with h | h
-      · exact Or.inl h.1
-      · exact Or.inr h
+      have := List.all_eq_true.mp hch.1 x hx
+      simp only [Bool.or_eq_true] at this
+      exact ⟨inFragL_mem hq.2 hx, this⟩
     obtain ⟨sp0, sp1, sp2, sp3, sp4, sp5⟩ := soft_paren e
+    have hd' : a.disabled = false := by simpa [ANode.attrs] using hdis
     unfold convParenthesized
     simp only [ANode.children]
-    refine Post.bind (Q := fun p => p ∈ cs ∧ isPattern p = true) ?_ (fun p hp => ?_)
-    · unfold childOr
-      cases hf : cs.find? isPattern with
-      | none => exact Post.rejected _
-      | some p => exact Post.pure ⟨List.mem_of_find?_eq_some hf, by simpa using List.find?_some hf⟩
-    · -- the pattern inside is not itself parenthesised (directly nested parentheses are outside the fragment)
-      have hpk : (p.kind == .parenthesized) = false := by
-        simp only [listChildrenOK, List.all_eq_true] at hch
-        have := hch p hp.1
-        simp only [Bool.or_eq_true, Bool.and_eq_true, Bool.not_eq_true'] at this
-        rcases this with h | h
-        · exact h.2
-        · exfalso
-          unfold isPassable isIgnorable isCommentKind at h
-          have hpp := hp.2
-          unfold isPattern isExpr at hpp
-          cases hkk : p.kind <;> simp_all [Kind.fixedText, Kind.isExpr]
-      simp only [hpk, Bool.false_and, Bool.false_eq_true, ↓reduceIte]
-      have hd' : a.disabled = false := by simpa [ANode.attrs] using hdis
-      rw [specAll_inner _ cs a (by simp [isVerbatimNode, hd']) (by decide)]
-      exact list_construct_carries e _ (parenItem r) _
-        (checker_ok (parenItem r) isPattern
-          (fun c x hnm hqx hax => by
-            unfold parenItem; simp only [hax, ↓reduceIte]
-            exact Post.bind (hr.pattern c x hnm hax hqx) (fun d hd => Post.pure ⟨d, rfl, hd⟩))
-          (fun c x hax => by unfold parenItem; simp [hax]))
-        (NM.withMode _ (by decide)) _ ⟨rfl, rfl, rfl⟩ id (fun _ => rfl) _ Carries.nil sp0 sp1 cs hall
-        (fun x hx => no_hash_of isPattern (fun y hy hk => by
-          unfold isPattern isExpr at hy; rw [hk] at hy; simp [Kind.isExpr] at hy) x (hall x hx).2)
+    cases hf : cs.find? isPattern with
+    | none => exact Post.bind (Q := fun _ => False) (by unfold childOr; exact Post.rejected _) (fun _ h => h.elim)
+    | some p =>
+      have hpm : p ∈ cs := List.mem_of_find?_eq_some hf
+      have hpp : isPattern p = true := by simpa using List.find?_some hf
+      simp only [childOr, M.pure_bind]
+      split
+      · -- directly nested: the inner layer alone
+        rename_i hcond
+        simp only [Bool.and_eq_true, beq_iff_eq, Bool.not_eq_true'] at hcond
+        have hnc : (cs.any fun c => isCommentKind c.kind) = false := by
+          simpa [hasCommentChildren, ANode.children] using hcond.2
+        have h2 := hch.2
+        simp [hf, hcond.1, hnc] at h2
+        have hni : isIgnorable p = false := by
+          unfold isIgnorable; rw [hcond.1]; rfl
+        rw [specAll_inner _ cs a (by simp [isVerbatimNode, hd']) (by decide),
+          specAllL_unique cs (inFragL_lex cs hq.2) p hpm hni h2.2]
+        exact hr.paren _ p (NM.withMode _ (by decide)) hcond.1 h2.1 (hall p hpm).1
+      · rename_i hcond
+        rw [specAll_inner _ cs a (by simp [isVerbatimNode, hd']) (by decide)]
+        exact list_construct_carries e _ (parenItem r) _
+          (checker_ok (parenItem r) isPattern
+            (fun c x hnm hqx hax => by
+              unfold parenItem; simp only [hax, ↓reduceIte]
+              exact Post.bind (hr.pattern c x hnm hax hqx) (fun d hd => Post.pure ⟨d, rfl, hd⟩))
+            (fun c x hax => by unfold parenItem; simp [hax]))
+          (NM.withMode _ (by decide)) _ ⟨rfl, rfl, rfl⟩ id (fun _ => rfl) _ Carries.nil sp0 sp1 cs hall
+          (fun x hx => no_hash_of isPattern (fun y hy hk => by
+            unfold isPattern isExpr at hy; rw [hk] at hy; simp [Kind.isExpr] at hy) x (hall x hx).2)
 
 /-- One level of the knot: the pattern entry point. -/
 theorem convPattern_frag (e : Env) (r : Rec) (hr : RecOK r Q) (hrM : RecOKM r QM) (ctx : Ctx) (hctx : NM ctx) (n : ANode)
